@@ -381,7 +381,7 @@ def user_placeholder(draw, name):
             (r"\d{5}", ["00001", "12345", "99999", "12346"]),
             (r"[A-Z]{2}", ["AB", "AC", "ZZ", "BA"]),
             (r"[a-z]\d", ["a1", "a2", "b1", "z9"]),
-            (r"\w+", USER_VALUES),
+            (r"[A-Za-z0-9]+", USER_VALUES),
         ]))
         return {"kind": "regex", "regex": regex, "values": values}
     if kind == "list":
